@@ -1,6 +1,7 @@
 package main
 
 import (
+	"io"
 	"bytes"
 	"context"
 	"fmt"
@@ -242,6 +243,9 @@ func suiteRedisConc(c *Ctx) {
 	}
 	for r := 0; r < c.scale(2, 10); r++ {
 		redisConcMerge(c, s, "cms-wide")
+	}
+	for r := 0; r < c.scale(16, 100); r++ {
+		redisConcMergeSameSource(c, s, r)
 	}
 	for r := 0; r < c.scale(8, 50); r++ {
 		for ki := 0; ki < 5; ki++ {
@@ -778,12 +782,21 @@ func redisConcMerge(c *Ctx, s *cmdSched, kind string) {
 // applied at most once: the estimate of an element never exceeds the sum of all counts any call
 // tried to add, and is at least the sum of those calls that reported success.
 
+// injectedTimeout is a net.Error with Timeout() == true ("read tcp ...: i/o timeout")
+type injectedTimeout struct{}
+
+func (injectedTimeout) Error() string   { return "read tcp 127.0.0.1: i/o timeout (injected)" }
+func (injectedTimeout) Timeout() bool   { return true }
+func (injectedTimeout) Temporary() bool { return true }
+
 type faultHook struct {
 	mu     sync.Mutex
 	armed  bool
 	lost   bool // true: execute, then lose the reply; false: refuse before execution
 	sticky bool // true: every command fails until disarmed (an outage), false: the next one only
 	fired  int
+	only   string // when set: only commands of this name are candidates
+	skip   int    // candidates to let through before the fault fires
 }
 
 func (f *faultHook) DialHook(next redis.DialHook) redis.DialHook { return next }
@@ -792,6 +805,13 @@ func (f *faultHook) ProcessHook(next redis.ProcessHook) redis.ProcessHook {
 		f.mu.Lock()
 		hit := f.armed
 		lost := f.lost
+		if hit && f.only != "" && cmd.Name() != f.only {
+			hit = false
+		}
+		if hit && f.skip > 0 {
+			f.skip--
+			hit = false
+		}
 		if hit {
 			f.armed = f.sticky
 			f.fired++
@@ -800,7 +820,22 @@ func (f *faultHook) ProcessHook(next redis.ProcessHook) redis.ProcessHook {
 		if !hit {
 			return next(ctx, cmd)
 		}
-		err := fmt.Errorf("verif: injected fault (i/o timeout)")
+		// the error a caller of go-redis really sees when the connection fails: end of stream, a
+		// network timeout (net.Error), an expired deadline - rotating
+		f.mu.Lock()
+		kind := f.fired % 4
+		f.mu.Unlock()
+		var err error
+		switch kind {
+		case 0:
+			err = injectedTimeout{}
+		case 1:
+			err = io.EOF
+		case 2:
+			err = context.DeadlineExceeded
+		default:
+			err = fmt.Errorf("verif: injected fault: %w", io.ErrUnexpectedEOF)
+		}
 		if lost {
 			next(ctx, cmd)
 		}
@@ -875,6 +910,7 @@ func redisFaults(c *Ctx) {
 		c.nontrivial(fmt.Sprint(rows, cols, hist))
 	}
 	c.branch("fault-injection")
+	redisFaultsMerge(c, fh)
 	redisFaultsHLL(c, fh)
 	redisFaultsBloom(c, fh)
 }
@@ -882,6 +918,135 @@ func redisFaults(c *Ctx) {
 // HyperLogLog: an Update that reported an error is retried by the caller until it is
 // acknowledged; every acknowledged element must then be in the registers (= a sketch that
 // received the same elements without faults), through this and through an attached handle.
+// Two DIFFERENT sketches merge the same source at the same time (the usual fan-out of one worker's
+// sketch into several aggregates): the merges share nothing but the source, which they only read -
+// every interleaving must leave each receiver = its own content + the source, the source unchanged,
+// and no key in the database that belongs to none of the three.
+func redisConcMergeSameSource(c *Ctx, s *cmdSched, round int) {
+	c.rep.Cases++
+	hll := round%3 == 2
+	var exportOf func(i int) string
+	var workers []func()
+	var want [3]string
+	var errs [2]error
+	keysBefore := 0
+	if hll {
+		mk := func() *gostatix.HyperLogLogRedis { h, _ := gostatix.NewHyperLogLogRedis(128); return h }
+		A, B, S, sa, sb := mk(), mk(), mk(), mk(), mk()
+		if A == nil || B == nil || S == nil || sa == nil || sb == nil {
+			return
+		}
+		el := func(i int) []byte { return []byte(fmt.Sprintf("fan-%d", i)) }
+		for i := 0; i < 5; i++ {
+			x, y, z := el(c.rng.Intn(50)), el(c.rng.Intn(50)), el(c.rng.Intn(50))
+			A.Update(x)
+			sa.Update(x)
+			B.Update(y)
+			sb.Update(y)
+			S.Update(z)
+			sa.Update(z)
+			sb.Update(z)
+		}
+		hs := []*gostatix.HyperLogLogRedis{A, B, S}
+		exportOf = func(i int) string { d, _ := parseHLL(hs[i].Export()); return fmt.Sprint(d.R) }
+		da, _ := parseHLL(sa.Export())
+		db, _ := parseHLL(sb.Export())
+		want = [3]string{fmt.Sprint(da.R), fmt.Sprint(db.R), exportOf(2)}
+		workers = []func(){func() { errs[0] = A.Merge(S) }, func() { errs[1] = B.Merge(S) }}
+	} else {
+		rows, cols := uint(2+c.rng.Intn(2)), uint(3+c.rng.Intn(6))
+		mk := func() *gostatix.CountMinSketchRedis { h, _ := gostatix.NewCountMinSketchRedis(rows, cols); return h }
+		A, B, S, sa, sb, W := mk(), mk(), mk(), mk(), mk(), mk()
+		if A == nil || B == nil || S == nil || sa == nil || sb == nil || W == nil {
+			return
+		}
+		W.Merge(S) // scripts cached
+		for i := 0; i < 5; i++ {
+			x, y, z := eqPool[c.rng.Intn(len(eqPool))], eqPool[c.rng.Intn(len(eqPool))], eqPool[c.rng.Intn(len(eqPool))]
+			n := uint64(1 + c.rng.Intn(9))
+			A.Update(x, n)
+			sa.Update(x, n)
+			B.Update(y, n+1)
+			sb.Update(y, n+1)
+			S.Update(z, n+2)
+			sa.Update(z, n+2)
+			sb.Update(z, n+2)
+		}
+		hs := []*gostatix.CountMinSketchRedis{A, B, S}
+		exportOf = func(i int) string { d, _ := parseCMS(hs[i].Export()); return matrixStr(d.M) }
+		da, _ := parseCMS(sa.Export())
+		db, _ := parseCMS(sb.Export())
+		want = [3]string{matrixStr(da.M), matrixStr(db.M), exportOf(2)}
+		workers = []func(){func() { errs[0] = A.Merge(S) }, func() { errs[1] = B.Merge(S) }}
+	}
+	keysBefore = len(c.mr.Keys())
+	fixed := [][]int{{0, 1, 0, 1, 0, 1}, {1, 0, 1, 0}, {0, 1, 1, 0}, nil}[round%4]
+	order := s.runScheduled(c.rng.Int63(), fixed, workers)
+	c.op("merge-same-source")
+	got := [3]string{exportOf(0), exportOf(1), exportOf(2)}
+	if errs[0] != nil || errs[1] != nil || got != want || len(c.mr.Keys()) != keysBefore {
+		kind := map[bool]string{true: "hll", false: "cms"}[hll]
+		props := []string{"C19", "C16", "C12"}
+		if hll {
+			props = []string{"C19", "C16", "C06"}
+		}
+		c.fail(props, kind+"-concurrent-merges-of-one-source-interfere",
+			fmt.Sprintf("%s: two different sketches merging the same source concurrently: errors %v / %v; receiver 1 as expected: %v, receiver 2: %v, source unchanged: %v; keys in the database %d -> %d", kind, errs[0], errs[1], got[0] == want[0], got[1] == want[1], got[2] == want[2], keysBefore, len(c.mr.Keys())),
+			map[string]interface{}{"kind": kind, "schedule": order})
+	}
+	if alternations(order) >= 2 {
+		c.nontrivial(fmt.Sprint("merge-same-source", round, order))
+	}
+}
+
+// Merge under a connection fault: a Merge that reports success has happened (the receiver answers
+// as the union), a Merge that reports an error has happened entirely or not at all.
+func redisFaultsMerge(c *Ctx, fh *faultHook) {
+	for round := 0; round < c.scale(10, 60); round++ {
+		rows, cols := uint(1+c.rng.Intn(4)), uint(2+c.rng.Intn(40))
+		A, e1 := gostatix.NewCountMinSketchRedis(rows, cols)
+		B, e2 := gostatix.NewCountMinSketchRedis(rows, cols)
+		W, e3 := gostatix.NewCountMinSketchRedis(rows, cols)
+		if e1 != nil || e2 != nil || e3 != nil {
+			continue
+		}
+		c.rep.Cases++
+		W.Merge(B) // script cache warm: the merge below is one EVALSHA
+		A.Update(eqPool[0], uint64(1+c.rng.Intn(9)))
+		B.Update(eqPool[1+c.rng.Intn(2)], uint64(1+c.rng.Intn(9)))
+		B.Update(eqPool[0], 1)
+		dA, _ := parseCMS(A.Export())
+		dB, _ := parseCMS(B.Export())
+		lost := round%3 == 0
+		fh.mu.Lock()
+		fh.armed, fh.lost = true, lost
+		fh.mu.Unlock()
+		var merr error
+		res := safely(func() { merr = A.Merge(B) })
+		fh.mu.Lock()
+		fh.armed = false
+		fh.mu.Unlock()
+		c.op("cms.merge-under-fault")
+		dAfter, _ := parseCMS(A.Export())
+		sum := make([][]uint64, len(dA.M))
+		for r := range dA.M {
+			sum[r] = make([]uint64, len(dA.M[r]))
+			for k := range dA.M[r] {
+				sum[r][k] = dA.M[r][k] + dB.M[r][k]
+			}
+		}
+		merged := matrixStr(dAfter.M) == matrixStr(sum)
+		untouched := matrixStr(dAfter.M) == matrixStr(dA.M)
+		if res.panicked || (merr == nil && !merged) || !(merged || untouched) {
+			c.fail([]string{"C12", "C16"}, "cms-merge-under-fault",
+				fmt.Sprintf("cms(rows=%d,cols=%d,redis=true): the Merge command was hit by a connection fault (%s); Merge returned %v (panic=%q); receiver afterwards: merged=%v untouched=%v (a Merge that reports success must have happened; one that reports an error entirely or not at all)", rows, cols, map[bool]string{true: "executed, reply lost", false: "refused before execution"}[lost], merr, res.panicVal, merged, untouched),
+				map[string]interface{}{"rows": rows, "cols": cols, "reply_lost": lost, "receiver_before": matrixStr(dA.M), "argument": matrixStr(dB.M), "receiver_after": matrixStr(dAfter.M)})
+			return
+		}
+	}
+	c.branch("merge-under-fault")
+}
+
 func redisFaultsHLL(c *Ctx, fh *faultHook) {
 	for round := 0; round < c.scale(10, 60); round++ {
 		m := []uint64{128, 256}[round%2]
